@@ -25,7 +25,8 @@ ID = "C18"
 LEVEL = "exploration"
 
 MAGNETS = ["Cuboid", "Cylinder", "CylinderSegment", "Sphere", "Tetrahedron", "TriangularMesh"]
-STYLE_COMMON = [("color", ["red", "blue", "#00ff00"]), ("opacity", [0.25, 0.5, 1.0]), ("label", ["a", "b_01", "xyz"]),
+STYLE_COMMON = [("color", ["red", "blue", "#00ff00"]), ("opacity", [0.25, 0.5, 1.0]),
+                ("label", ["a", "b_01", "xyz", "", "x_", "7"]),
                 ("path_line_width", [1, 2, 3]), ("path_marker_size", [2, 4]), ("description_text", ["x", "y"]),
                 ("description_show", [True, False]), ("legend_show", [True, False]),
                 ("model3d_showdefault", [True, False]), ("path_frames", [[0, 1], 2]), ("path_show", [True, False])]
@@ -154,6 +155,8 @@ class C18Session(Session):
         for k, v in kw.items():
             if k == "orientation":
                 out[k] = rot_from(v)
+            elif k == "parent":
+                out[k] = self.world[v]
             else:
                 out[k] = v
         return out
@@ -203,6 +206,8 @@ class C18Session(Session):
                     items.insert(min(var.get("pos", 0), len(items)), (var["key"], var["value"]))
                     kw = dict(items)
                 out, new = self._do_copy(obj, kw, warn_error=var["kind"] == "warn_error")
+                if out == "ok" and new is not None and new._parent is not None:
+                    new.parent = None  # an accepted copy(parent=coll) legitimately hangs under coll: detach it
                 post = self._world_snap()
             finally:
                 if attached:
@@ -241,6 +246,17 @@ class C18Session(Session):
         self.stats["copies"] += 1
         post = self._world_snap()
         self.log.add("copy", self.step, cls, sorted(kw), out, sdigest(post))
+        pidx = kw.get("parent")
+        pidx = pidx % len(w.objs) if isinstance(pidx, int) else None
+        if pidx is not None and out == "ok":
+            # copy(parent=coll): the copy becomes the last child of coll - the only allowed change
+            par = w.objs[pidx]
+            if new._parent is not par or not par._children or par._children[-1] is not new:
+                raise Violation("override_not_applied", "copy(parent=coll): the copy is not the last child of coll",
+                                op="copy", attr="parent")
+            self.probe("copy_with_parent_kwarg")
+            new.parent = None  # detach again (public API): the original world must be back to what it was
+            post = self._world_snap()
         if post != pre:
             path = first_diff(pre, post)
             raise Violation("original_changed_by_copy", f"copy {out} changed the original world: {path}", op="copy",
@@ -313,7 +329,7 @@ class C18Session(Session):
         pose_keys = [k for k in kw if k in POSE_COUPLED]
         exc_keys = [k for k in kw if k in ("polarization", "magnetization")]
         for k, v in kw.items():
-            if k.startswith("style"):
+            if k.startswith("style") or k == "parent":
                 continue
             if k in POSE_COUPLED and k != pose_keys[-1]:
                 continue  # a later pose override pads/slices this one (setter semantics, C09)
@@ -607,6 +623,14 @@ class Sim:
                 else:
                     k, vals = rng.choice(style_leaves(cls))
                     kw["style_" + k] = rng.choice(vals)
+        if cols and rng.random() < 0.15:
+            # copy(parent=coll): only collections of the original world that are not inside the copied subtree
+            sub = {id(x) for x in subtree(obj)}
+            cand = [i for i in cols if id(w.objs[i]) not in sub and sess.group[i] == sess.group[o]]
+            if cand:
+                items = list(kw.items())
+                items.insert(rng.randint(0, len(items)), ("parent", rng.choice(cand)))
+                kw = dict(items)
         op = {"op": "copy", "o": o, "kw": [[k, v] for k, v in kw.items()]}
         if cfg["fail_variants"]:
             vs = []
